@@ -190,11 +190,16 @@ theorem frv (m : Msg) (L : Long m) (flag sb eb : Nat) (hf : 1 ≤ flag) (hf2 : f
   rw [e] at this; exact this
 
 theorem me_code_safe (m : Msg) (L : Long m) : T.me_code.safe m := by
-  unfold T.me_code.safe; have := L.len; omega
+  unfold T.me_code.safe; have := L.len
+  refine ⟨by omega, by omega, by omega, ?_⟩
+  obtain ⟨f_, v_, hv_, _, hb_⟩ := frv m L 48 41 52 (by decide) (by decide) (by decide) (by decide) (by decide)
+  rw [hv_]; simp only []
+  have : v_ < 4096 := by simpa using hb_
+  omega
 
 theorem vertical_rate_value_safe (sign value : Nat) (h1 : 1 ≤ value) (h2 : value < 512) : T.vertical_rate_value.safe sign value := by
   unfold T.vertical_rate_value.safe
-  refine ⟨h1, fun _ => ?_⟩
+  refine ⟨h1, by omega, fun _ => ?_⟩
   have hb : (value - 1) <<< 6 < 2147483648 := by
     rw [Nat.shiftLeft_eq]; omega
   rw [u32ToI32_small _ hb]
@@ -367,7 +372,15 @@ theorem squawk_safe (m : Msg) : T.squawk.safe m := by
   have h2 := hb (code >>> 3) (code >>> 5) (code >>> 7)
   have h3 := hb (code >>> 9) (code >>> 11) (code >>> 13)
   have h4 := hb (code >>> 2) (code >>> 4) (code >>> 6)
-  refine ⟨?_, ?_, ?_, ?_, ?_, ?_⟩ <;> omega
+  have b2 : (code >>> 2) &&& 1 ≤ 1 := Nat.and_le_right
+  have b3 : (code >>> 3) &&& 1 ≤ 1 := Nat.and_le_right
+  have b4 : (code >>> 4) &&& 1 ≤ 1 := Nat.and_le_right
+  have b5 : (code >>> 5) &&& 1 ≤ 1 := Nat.and_le_right
+  have b8 : (code >>> 8) &&& 1 ≤ 1 := Nat.and_le_right
+  have b9 : (code >>> 9) &&& 1 ≤ 1 := Nat.and_le_right
+  have b10 : (code >>> 10) &&& 1 ≤ 1 := Nat.and_le_right
+  have b11 : (code >>> 11) &&& 1 ≤ 1 := Nat.and_le_right
+  and_intros <;> omega
 
 theorem threat_encounter_safe (m : Msg) (L : Long m) : T.threat_encounter.safe m := by
   unfold T.threat_encounter.safe; have := L.len; omega
@@ -377,8 +390,13 @@ theorem ia5_safe (c : Nat) : T.ia5.safe c := trivial
 theorem ais_safe (m : Msg) (L : Long m) : T.ais.safe m := by
   unfold T.ais.safe
   have := L.len
-  refine ⟨by omega, by omega, by omega, by omega, by omega, by omega, by omega, by omega, by omega, by omega, by omega, by omega, ?_⟩
-  intro p _; trivial
+  have n10 := nib_lt m L.nib 10; have n13 := nib_lt m L.nib 13; have n16 := nib_lt m L.nib 16; have n19 := nib_lt m L.nib 19
+  have a11 : nib m 11 &&& 3 ≤ 3 := Nat.and_le_right
+  have a14 : nib m 14 &&& 3 ≤ 3 := Nat.and_le_right
+  have a17 : nib m 17 &&& 3 ≤ 3 := Nat.and_le_right
+  have a20 : nib m 20 &&& 3 ≤ 3 := Nat.and_le_right
+  and_intros
+  all_goals first | omega | (intro p _; trivial)
 
 theorem wake_safe (vc : Nat × Nat) : T.get_wake_turbulence_category.safe vc := trivial
 
@@ -462,6 +480,7 @@ theorem track_angle_5_0_safe (m : Msg) (L : Long m) : T.track_angle_5_0.safe m :
 
 theorem track_angle_rate_safe (sign value : Nat) (h : value < 512) : T.track_angle_rate.safe sign value := by
   unfold T.track_angle_rate.safe
+  refine ⟨by omega, ?_⟩
   simp only []
   intro _
   have hb : (value <<< 3) >>> 8 < 2147483648 := by
@@ -479,9 +498,25 @@ theorem track_angle_rate_5_0_safe (m : Msg) (L : Long m) : T.track_angle_rate_5_
   · trivial
 
 theorem ground_speed_5_0_safe (m : Msg) (L : Long m) : T.ground_speed_5_0.safe m := by
-  unfold T.ground_speed_5_0.safe; have := L.len; omega
+  unfold T.ground_speed_5_0.safe; have := L.len
+  refine ⟨by omega, by omega, by omega, ?_⟩
+  obtain ⟨f_, v_, hv_, _, hb_⟩ := frv m L 56 57 66 (by decide) (by decide) (by decide) (by decide) (by decide)
+  rw [hv_]
+  rcases opt_filter_cases (fun f => f.1 == 1) (f_, v_) with h | h <;> rw [h]
+  · have hv : v_ < 1024 := by simpa using hb_
+    show v_ * 2 ^ _ < 2 ^ 32
+    omega
+  · trivial
 theorem true_airspeed_5_0_safe (m : Msg) (L : Long m) : T.true_airspeed_5_0.safe m := by
-  unfold T.true_airspeed_5_0.safe; have := L.len; omega
+  unfold T.true_airspeed_5_0.safe; have := L.len
+  refine ⟨by omega, by omega, by omega, ?_⟩
+  obtain ⟨f_, v_, hv_, _, hb_⟩ := frv m L 78 79 88 (by decide) (by decide) (by decide) (by decide) (by decide)
+  rw [hv_]
+  rcases opt_filter_cases (fun f => f.1 == 1) (f_, v_) with h | h <;> rw [h]
+  · have hv : v_ < 1024 := by simpa using hb_
+    show v_ * 2 ^ _ < 2 ^ 32
+    omega
+  · trivial
 
 theorem magnetic_heading_safe (sign value : Nat) (h : value < 1024) : T.magnetic_heading.safe sign value := by
   unfold T.magnetic_heading.safe
@@ -522,6 +557,7 @@ theorem barometric_altitude_rate_6_0_safe (m : Msg) (L : Long m) : T.barometric_
 
 theorem internal_vertical_velocity_safe (sign value : Nat) (h : value < 512) : T.internal_vertical_velocity.safe sign value := by
   unfold T.internal_vertical_velocity.safe
+  refine ⟨by omega, ?_⟩
   simp only []
   intro _
   have hb : value <<< 5 < 2147483648 := by rw [Nat.shiftLeft_eq]; omega
@@ -543,9 +579,25 @@ theorem internal_vertical_velocity_6_0_safe (m : Msg) (L : Long m) : T.internal_
 
 
 theorem mcp_selected_altitude_safe (m : Msg) (L : Long m) : T.mcp_selected_altitude.safe m := by
-  unfold T.mcp_selected_altitude.safe; have := L.len; omega
+  unfold T.mcp_selected_altitude.safe; have := L.len
+  refine ⟨by omega, by omega, by omega, ?_⟩
+  obtain ⟨f_, v_, hv_, _, hb_⟩ := frv m L 33 34 45 (by decide) (by decide) (by decide) (by decide) (by decide)
+  rw [hv_]
+  rcases opt_filter_cases (fun f => f.1 == 1) (f_, v_) with h | h <;> rw [h]
+  · have hv : v_ < 4096 := by simpa using hb_
+    show v_ * 2 ^ _ < 2 ^ 32
+    omega
+  · trivial
 theorem fms_selected_altitude_safe (m : Msg) (L : Long m) : T.fms_selected_altitude.safe m := by
-  unfold T.fms_selected_altitude.safe; have := L.len; omega
+  unfold T.fms_selected_altitude.safe; have := L.len
+  refine ⟨by omega, by omega, by omega, ?_⟩
+  obtain ⟨f_, v_, hv_, _, hb_⟩ := frv m L 46 47 58 (by decide) (by decide) (by decide) (by decide) (by decide)
+  rw [hv_]
+  rcases opt_filter_cases (fun f => f.1 == 1) (f_, v_) with h | h <;> rw [h]
+  · have hv : v_ < 4096 := by simpa using hb_
+    show v_ * 2 ^ _ < 2 ^ 32
+    omega
+  · trivial
 theorem target_altitude_source_safe (m : Msg) (L : Long m) : T.target_altitude_source.safe m := by
   unfold T.target_altitude_source.safe; have := L.len; omega
 
@@ -672,7 +724,7 @@ theorem is_bds_4_5_safe (m : Msg) (L : Long m) : T.is_bds_4_5.safe m := by
 theorem get_capability_safe (m : Msg) (h : 2 ≤ m.length) : T.get_capability.safe m := by
   unfold T.get_capability.safe; omega
 theorem get_message_type_safe (m : Msg) (L : Long m) : T.get_message_type.safe m := by
-  unfold T.get_message_type.safe; have := L.len; omega
+  unfold T.get_message_type.safe; have := L.len; have := nib_lt m L.nib 8; omega
 
 theorem srt_update_safe (self : T.Srt) (m : Msg) (h : 2 ≤ m.length) : T.Srt.update.safe self m := by
   unfold T.Srt.update.safe
